@@ -9,7 +9,7 @@ import json
 import logging
 
 import vkopf
-from vkopf.driver_api import Ob, split
+from vkopf.driver_api import Ob, split, sample
 from vkopf.world import rfc7386, base_body
 
 from kopf._cogs.configs import conventions, diffbase, progress
@@ -330,9 +330,9 @@ def obligations():
     for axs in (0, 1, 2):
         for bxs in (0, 1, 2):
             obs.append(Ob('h_diff', {'axs': axs, 'bxs': bxs}, tiers=('thorough',), timeout=1200))
-    for axs, bxs in ((3, 3), (3, 2), (2, 3), (3, 1), (1, 3), (3, 0), (0, 3)):
-        obs += split(Ob('h_diff', {'axs': axs, 'bxs': bxs, 'paths': [['a'], ['a', 'c'], ['a', 'd'], ['b']]}, tiers=('thorough',), timeout=3000),
-                     ays=[0, 1], bys=[0, 1], axk=[0, 1, 2, 3, 4])
+    for i, (axs, bxs) in enumerate(((3, 3), (3, 2), (2, 3), (3, 1), (1, 3), (3, 0), (0, 3))):
+        obs += sample(Ob('h_diff', {'axs': axs, 'bxs': bxs, 'paths': [['a'], ['a', 'c'], ['a', 'd'], ['b']]}, tiers=('thorough',), timeout=1500),
+                      8, seed=50 + i, ays=[0, 1], bys=[0, 1], axk=[0, 1, 2, 3, 4])
     obs.append(Ob('h_diff_boolint', {}, expect='counterexample', finding='F7', timeout=60))
     combos = [('annotations', 'annotations', True, 'kopf.zalando.org'), ('annotations', 'annotations', False, 'my.op.io'),
               ('status', 'status', True, 'kopf.zalando.org'), ('smart', 'multi', True, 'kopf.zalando.org'),
@@ -348,7 +348,8 @@ def obligations():
                               tiers=('quick',), timeout=600))
             if i == 0:
                 obs.append(Ob('h_own_writes', cell, tiers=('quick', 'thorough'), timeout=300, twins=['patched'], main=False))
-        obs += split(Ob('h_own_writes', cell, tiers=('thorough',), timeout=1500), which=[0, 1, 2, 3, 4, 5], idx=[0, 1, 2, 3], prior=[False, True])
+        obs += sample(Ob('h_own_writes', cell, tiers=('thorough',), timeout=900), 14, seed=60 + i, which=[0, 1, 2, 3, 4, 5], idx=[0, 1, 2, 3],
+                      prior=[False, True], has_lbl=[False, True], has_status=[False, True])
         obs += split(Ob('h_noise_and_signal', cell, tiers=('quick', 'thorough') if quick else ('thorough',), timeout=900,
                         twins=['signal'] if i == 0 else []), what=[0, 3, 7, 9, 12] if quick else list(range(14)))
         if quick:
